@@ -699,6 +699,7 @@ def hist_case(rep, NP, MAXR, NSTEPS, FIRST, CRASH, prefix, pid=PID, clauses=None
     rep.paths += len(paths)
     rep.decisions += sum(len(p.decisions) for p in paths)
     nbad = 0
+    seen = set()
     for p in paths:
         bad = p.result['bad']
         if clauses is not None:
@@ -708,15 +709,16 @@ def hist_case(rep, NP, MAXR, NSTEPS, FIRST, CRASH, prefix, pid=PID, clauses=None
         if not bad:
             continue
         nbad += 1
-        if nbad > 2:
-            continue
-        rep.replayed += 1
-        clause = bad[0][0]
         where = 'later-slot' if any(l[0] > 0 and l[2] for l in p.result['log']) else 'first-slot'
-        rep.violation(f'{pid}/{clause}/{where}/first{int(FIRST)}',
-                      f'{name}: {clause}: {str(bad[0][1])[:200]}; post_step log (slot, time, restart, restarts_in_a_row): {p.result["log"]}',
-                      {'task': ['hist', NP, MAXR, NSTEPS, FIRST, CRASH], 'shrink': shrink, 'decisions': p.decisions, 'violated': [(b[0], str(b[1])[:300]) for b in bad],
-                       'log': p.result['log']})
+        for b in bad:  # one report per distinct clause / call-site class
+            key = f'{pid}/{b[0]}/{where}/first{int(FIRST)}'
+            if key in seen:
+                continue
+            seen.add(key)
+            rep.replayed += 1
+            rep.violation(key, f'{name}: {b[0]}: {str(b[1])[:200]}; post_step log (slot, time, restart, restarts_in_a_row): {p.result["log"]}',
+                          {'task': ['hist', NP, MAXR, NSTEPS, FIRST, CRASH], 'shrink': shrink, 'decisions': p.decisions, 'violated': [(x[0], str(x[1])[:300]) for x in bad],
+                           'log': p.result['log']})
     rep.extra['histories_by_config'] = rep.extra.get('histories_by_config', []) + [{'config': name, 'prefix': prefix, 'paths': len(paths), 'violating': nbad,
                                                                                    'crashes': sum(1 for p in paths if p.result['status'] == 'crash')}]
     if paths and len(rep.samples) < 8:
